@@ -1,7 +1,10 @@
 use atomic_refcell::AtomicRefCell;
 use std::collections::HashMap;
 use std::sync::atomic::{AtomicBool, AtomicUsize, Ordering};
+#[cfg(not(mmtk_verif))]
 use std::sync::Mutex;
+#[cfg(mmtk_verif)]
+use crate::util::verif::sync::Mutex;
 use std::time::Instant;
 
 /// This stores some global states for an MMTK instance.
